@@ -1,6 +1,6 @@
 """C05 Scoped dispatch — bookkeeping clauses."""
 import re
-from ..mirlib import load, callee_key
+from ..mirlib import load, callee_key, guarding_branches
 from ..smimpl import index
 from ..astlib import walk, walk_path, enclosing_ifs
 from ..facts import EngineError
@@ -212,6 +212,25 @@ def run(ctx):
     # ------------------------------------------------------------------ R05.5 (shared with C06 R06.2)
     from .c06 import rule_sticky_scratch
     rule_sticky_scratch(ctx, mir, idx, rid="R05.5")
+
+    # ------------------------------------------------------------------ R05.7
+    r = ctx.rule("R05.7", "the 'next element can have content' flag is fresh for every matched element: it is written only by start_matching, with match_info.with_content, on every match (not conditionally on with_content or on the presence of a handler), and only read by handle_start_tag", "E-MIR", floor=3)
+    ws = [(f2, bi, st) for f2, bi, st in mir.field_writes("ContentHandlersDispatcher", "next_element_can_have_content") if not mir.is_test_fn(f2) and not f2.key.endswith("default[Default]")]
+    r.inst("flag|writers", sample={"writers": sorted(set(f2.key for f2, _, _ in ws))})
+    if sorted(set(f2.key for f2, _, _ in ws)) != ["ContentHandlersDispatcher::start_matching"]:
+        r.violate("flag|writers", f"next_element_can_have_content is written in {sorted(set(f2.key for f2, _, _ in ws))}; expected only start_matching (one write per matched element)", None)
+    for f2, bi, st in ws:
+        if f2.key != "ContentHandlersDispatcher::start_matching":
+            continue
+        v = f2.deep(st["rv"]["o"]) if st["rv"]["k"] == "use" else st["rv"]["k"]
+        gs = [f2.deep(f2.blocks[sb]["term"]["d"]) for sb in guarding_branches(f2, bi)]
+        r.inst("flag|value-and-unconditional", sample={"value": v, "guards": [g[:60] for g in gs]})
+        if v != "match_info.with_content" or any("with_content" in g or "handler_idx" in g for g in gs):
+            r.violate("flag|value-and-unconditional", f"start_matching sets next_element_can_have_content = {v} under {[g[:50] for g in gs]}: a match without content (void element) that follows a match with content would see the stale `true` - can_have_content(), on_end_tag() and remove() then act on the enclosing element", f2.loc())
+    readers = sorted(f2.key for f2 in mir.fns if not mir.is_test_fn(f2) and "ContentHandlersDispatcher.next_element_can_have_content" in sm.fields_read(f2) and f2.key != "ContentHandlersDispatcher::start_matching")
+    r.inst("flag|readers", sample={"readers": readers})
+    if readers != ["ContentHandlersDispatcher::handle_start_tag"]:
+        r.violate("flag|readers", f"next_element_can_have_content is read in {readers}", None)
 
     # ------------------------------------------------------------------ R05.6 (shared with C06 R06.1)
     # what the tag scanner learned (CDATA permission, text type, last start tag) must survive the switch to the lexer
